@@ -134,11 +134,13 @@ def mkChunkCDS (x : CdsD) (ch : Chunk) : R ChunkCDS := do
   let base ← mkCDS (x.exons.map (·.1)) x.st (.frames fs) none
   pure ⟨base, loc, ch⟩
 
-/-- `CDSInterval.__init__` on the whole chromosome -/
+/-- `CDSInterval.__init__` on the whole chromosome: `initialize_location` checks the blocks against the sequence
+    (`reset_parent`); the members are then set exactly as without a parent -/
 def mkWholeCDS (x : CdsD) (letters : List Char) : R CDS := do
   let _ ← initializeLocation (x.exons.map (·.1)) x.st (.whole letters)
   let fs ← framesOf (x.exons.map (·.2))
-  mkCDS (x.exons.map (·.1)) x.st (.frames fs) (some letters)
+  let c ← mkCDS (x.exons.map (·.1)) x.st (.frames fs) none
+  pure { c with seq := some letters }
 
 /-- the node of a CDS: digest = genomic starts, ends, strand, frames (cds.py:87-97); `to_dict` exports the same -/
 def cdsNode (x : CdsD) (base : CDS) (loc : Location) (depth : Nat) : Node :=
